@@ -28,7 +28,7 @@ def check_c09(case, ctx):
     if not isinstance(p, list) or len(p) != n:
         raise Violation("shape", f"{kind}: {n} teams, result {p!r}")
     for i, x in enumerate(p):
-        if not (isinstance(x, float) and -1e-12 <= x <= 1 + 1e-12):
+        if not (isinstance(x, (int, float)) and not isinstance(x, bool) and -1e-12 <= x <= 1 + 1e-12):
             raise Violation("range", f"{kind}: predict_win[{i}] = {x!r}")
     s = sum(p)
     if abs(s - 1.0) > n * 1e-13:
